@@ -16,6 +16,8 @@ POSITIONS = ["apdu-tagged-kaifa", "apdu-untagged-kaifa", "apdu-tagged-kamstrup",
              "kaifa-positional-body", "kaifa-positional-frame", "kaifa-obis-body", "kaifa-obis-frame", "kamstrup-element-body"]
 
 _OTHER = (2019, 2, 4, 1, 23, 52, 22, 0xFF, C.UNSPEC_DEV, 0)  # a different date-time for the slot that must NOT be reported
+_OTHER_AWARE = (2031, 7, 9, 3, 4, 5, 6, 50, -120, 0x80)  # ... and one with a deviation, hundredths and a status (round-11 seed C10-r11D1)
+_OTHERS = (_OTHER, _OTHER_AWARE)
 
 _KAIFA3 = [(n, "text", C._KAIFA_TEXT[n]) if n in C._KAIFA_TEXT else ((n, "clock", None) if n == "meter_datetime" else (n, "reg", 1000 + i)) for i, n in enumerate(C.K3)]
 _KAIFA_SE = [(n, "text", C._KAIFA_TEXT[n]) if n in C._KAIFA_TEXT else ((n, "clock", None) if n == "meter_datetime" else (n, "reg", 2000 + i)) for i, (_o, n) in enumerate(C.KAIFA_SE_OBIS)]
@@ -27,7 +29,7 @@ def _with_clock(items, spec, idx):
     return [tuple(list(it[:idx]) + [spec]) if it[idx - 1] == "clock" else it for it in items]
 
 
-def decode_at(position, spec):
+def decode_at(position, spec, other=_OTHER):
     """Build a message carrying spec at the position and return the decoded 'meter_datetime'."""
     if position.startswith("apdu-"):
         tagged = "-tagged-" in position
@@ -35,7 +37,7 @@ def decode_at(position, spec):
             body, _ = C.kaifa_body(1, [("active_power_import", "reg", 1234)])
             d = guarded(kaifa.decode_frame_content, C.llc_apdu(body, spec, tagged), what="kaifa.decode_frame_content")
         else:
-            items = [it if it[2] != "clock" else (it[0], it[1], "clock", _OTHER) for it in _KAM_ITEMS]
+            items = [it if it[2] != "clock" else (it[0], it[1], "clock", other) for it in _KAM_ITEMS]
             body, _, _ = C.kamstrup_body("Kamstrup_V0001", items, [0] * (len(items) + 1))
             d = guarded(kamstrup.decode_frame_content, C.llc_apdu(body, spec, tagged), what="kamstrup.decode_frame_content")
     elif position.startswith("aidon-element"):
@@ -49,7 +51,7 @@ def decode_at(position, spec):
         if position.endswith("body"):
             d = guarded(kaifa.decode_notification_body, body, what="kaifa.decode_notification_body")
         else:  # the list's own clock element wins over the APDU date-time
-            d = guarded(kaifa.decode_frame_content, C.llc_apdu(body, _OTHER, True), what="kaifa.decode_frame_content")
+            d = guarded(kaifa.decode_frame_content, C.llc_apdu(body, other, True), what="kaifa.decode_frame_content")
     elif position.startswith("kaifa-obis"):
         body, _ = C.kaifa_body("se", _with_clock(_KAIFA_SE, spec, 2))
         if position.endswith("body"):
@@ -80,10 +82,13 @@ def _oracle_tz(case) -> Info:
             # a date-time with the same civil fields but another deviation/hundredths - or the same instant written with another
             # deviation - decoded just before must not matter
             decode_at(pos, twin)
-        got = C.run_in_thread(lambda: decode_at(pos, spec)) if threaded else decode_at(pos, spec)
-        m = C.same_dt(got, exp)
-        if m:
-            fail(f"{pos}: date-time octets {C.dt_octets(spec).hex()} decoded to {got!r}: {m}", sig=f"dt:{pos}")
+        # positions with a second date-time slot that must not be reported (or mixed in): that slot is tried naive and aware
+        others = _OTHERS if pos in ("kaifa-positional-frame", "apdu-tagged-kamstrup", "apdu-untagged-kamstrup") else (_OTHER,)
+        for other in others:
+            got = C.run_in_thread(lambda: decode_at(pos, spec, other)) if threaded else decode_at(pos, spec, other)
+            m = C.same_dt(got, exp)
+            if m:
+                fail(f"{pos}: date-time octets {C.dt_octets(spec).hex()} (other slot {C.dt_octets(other).hex()}) decoded to {got!r}: {m}", sig=f"dt:{pos}")
     _y, _mo, _d, _dow, _h, _mi, _s, hs, dev, status = spec
     classes = []
     if dev != C.UNSPEC_DEV:
